@@ -454,7 +454,7 @@ func verifLemmaMaxBodyTight(c *channelInstance, m *Message, chunkSize int, chunk
 // returns or has consumed one frame (no spinning without input); the backlog kept for one request id
 // never exceeds the negotiated chunk count; a delivered message is at most MaxMessageSize long.
 //@ func (*SecureChannel).Receive
-//@   props C13 C20 C06
+//@   props C13 C20 C06 C12
 //@   bytes
 //@   use mergeChunks@safe
 //@   use github.com/gopcua/opcua/ua.DecodeService@limited
@@ -473,6 +473,8 @@ func verifLemmaMaxBodyTight(c *channelInstance, m *Message, chunkSize int, chunk
 //@   loop 0 invariant ua.decodeLimit() == int(s.c.ack.MaxMessageSize)
 //@   loop 0 invariant [C13:backlog-bounded] s.c.ack.MaxChunkCount < 4294967295 &&
 //@           (forall k uint32 :: { in(k, s.chunks) } in(k, s.chunks) ==> len(s.chunks[k]) <= int(s.c.ack.MaxChunkCount))
+//@   ensures [C12:other-requests-kept] forall a uint32, b uint32 :: { in(a, s.chunks), in(b, s.chunks) } old(in(a, s.chunks)) && !in(a, s.chunks) && old(in(b, s.chunks)) && !in(b, s.chunks) ==> a == b
+//@   loop 0 invariant [C12:nothing-dropped-so-far] forall k uint32 :: { in(k, s.chunks) } old(in(k, s.chunks)) ==> in(k, s.chunks)
 //@   requires len(s.chunks) <= 1
 //@   loop 0 invariant [C13:incomplete-messages-bounded] len(s.chunks) <= 1
 
